@@ -3,6 +3,7 @@
 import json, os, subprocess, sys, tempfile, xml.etree.ElementTree as ET
 repo = os.environ.get("VERIF_REPO", "/repo")
 env = dict(os.environ); env.pop("STINGRAY_READER_VERIF", None)
+env["PYTHONPATH"] = os.path.join(repo, "src")
 with tempfile.TemporaryDirectory() as td:
     xml = os.path.join(td, "r.xml")
     subprocess.run(["/venv/bin/python", "-m", "pytest", "-q", "-p", "no:cacheprovider", "--timeout=900",
